@@ -489,12 +489,33 @@ Record crash_case := { cc_lay : layout; cc_loc : bool; cc_files : list (path * s
 Definition mk_cc l b f p g c e k :=
   {| cc_lay := l; cc_loc := b; cc_files := f; cc_pid := p; cc_gid := g; cc_cpv := c; cc_entry := e; cc_k := k |}.
 
-(* stream "ops": the mutating calls of one store *)
+(* stream "ops": the mutating calls of one store; the run of consecutive writes is reported
+   as one item [write; path; all data; number of write calls] to keep the cases file small *)
+Fixpoint split_appends (ops : list op) : list op * list op :=
+  match ops with
+  | Append p d :: r => let (a, b) := split_appends r in (Append p d :: a, b)
+  | _ => ([], ops)
+  end.
+Fixpoint enc_ops (fuel : nat) (ops : list op) : list val :=
+  match fuel with
+  | O => []
+  | S f =>
+      match ops with
+      | [] => []
+      | Append p _ :: _ =>
+          let (a, b) := split_appends ops in
+          VL [VS (lit "write"); VL (map VS p);
+              VS (flat_map (fun o => match o with Append _ d => d | _ => [] end) a);
+              VZ (Z.of_nat (length a))] :: enc_ops f b
+      | o :: r => enc_op o :: enc_ops f r
+      end
+  end.
 Definition run_ops (c : crash_case) : val :=
   match serialize (cc_lay c) (cc_entry c) with
   | None => VErr (lit "KeyError")
   | Some content =>
-      VL (map enc_op (store_ops (mk_fs (cc_loc c) (cc_files c)) LOC (cc_pid c) (cc_gid c) (cc_cpv c) content))
+      let ops := store_ops (mk_fs (cc_loc c) (cc_files c)) LOC (cc_pid c) (cc_gid c) (cc_cpv c) content in
+      VL (enc_ops (S (length ops)) ops)
   end.
 (* stream "crash": the first k (successful) calls of the store happen, then the machine
    stops; afterwards cache[cpv], every other entry and the key listing are observed *)
